@@ -17,9 +17,9 @@
 #include <optional>
 
 enum ObjOp { OP_CONSTRUCT = 0, OP_SET, OP_SOLVE, OP_COPY_CTOR, OP_COPY_ASSIGN, OP_MOVE_CTOR, OP_MOVE_ASSIGN, OP_DESTROY,
-             OP_SELF_ASSIGN, OP_DEFAULT_CTOR, OP_COUNT };
+             OP_SELF_ASSIGN, OP_DEFAULT_CTOR, OP_SWAP, OP_CHAIN_ASSIGN, OP_COUNT };
 static const char* kOpNames[] = {"construct", "set", "solve", "copy_ctor", "copy_assign", "move_ctor",
-                                 "move_assign", "destroy", "self_assign", "default_ctor"};
+                                 "move_assign", "destroy", "self_assign", "default_ctor", "swap", "chain_assign"};
 
 static inline bool sameBits(double a, double b)
 {
@@ -642,6 +642,33 @@ Outcome runMachine(const std::vector<int>& cmds, const std::string& kindName)
                 applied                       = true;
             }
             break;
+        case OP_SWAP:
+            // std::swap: one move construction and two move assignments
+            if (alive[a] && !moved[a] && alive[b] && !moved[b] && a != b) {
+                std::swap(*obj[a], *obj[b]);
+                std::swap(mod[a], mod[b]);
+                std::swap(dflt[a], dflt[b]);
+                applied = true;
+                if (mod[a].solved || mod[b].solved || !T::isSolver)
+                    copyAfterState = true;
+            }
+            break;
+        case OP_CHAIN_ASSIGN: {
+            // c = b = a (the assignment operators return the target)
+            const int cc = (a + 1 + std::abs(arg) % (NS - 1)) % NS;
+            if (alive[a] && !moved[a] && alive[b] && alive[cc] && a != b && b != cc && a != cc) {
+                if (dflt[a])
+                    sawDefaultCopy = true;
+                *obj[cc] = (*obj[b] = *obj[a]);
+                mod[b] = mod[cc] = mod[a];
+                moved[b] = moved[cc] = false;
+                dflt[b] = dflt[cc] = dflt[a];
+                applied            = true;
+                if (mod[a].solved || !T::isSolver)
+                    copyAfterState = true;
+            }
+            break;
+        }
         case OP_SELF_ASSIGN:
             if (alive[a] && !moved[a]) {
                 typename T::Obj& ref = *obj[a];
@@ -717,7 +744,9 @@ inline KV genObjectsCase()
                                                                                                  {3, OP_MOVE_ASSIGN},
                                                                                                  {2, OP_DESTROY},
                                                                                                  {1, OP_SELF_ASSIGN},
-                                                                                                 {1, OP_DEFAULT_CTOR}})),
+                                                                                                 {1, OP_DEFAULT_CTOR},
+                                                                                                 {2, OP_SWAP},
+                                                                                                 {1, OP_CHAIN_ASSIGN}})),
                                  rc::gen::resize(rc::kNominalSize, rc::gen::inRange(0, 4)),
                                  rc::gen::resize(rc::kNominalSize, rc::gen::inRange(0, 4)),
                                  rc::gen::resize(rc::kNominalSize, rc::gen::inRange(0, 1000)));
